@@ -1,0 +1,151 @@
+//go:build verif
+
+// Contracts for package blocktimeindex (comment-only; read by /verif/vcgo, build tag verif).
+package blocktimeindex
+
+// The index is usable (Set/Get never index out of range) when the slot window fits the value table.
+//@ spec func validIndex(i *Index) bool = i != nil && i.start <= i.end && i.end - i.start < uint64(len(i.values)) && i.capacity == uint64(len(i.values))
+
+//@ func NewErrSlotOutOfRange
+//@   mode int
+//@   ensures result != nil
+
+// ---- construction ----
+
+//@ func NewIndexer
+//@   mode int
+//@   panics start / 432000 != end / 432000 || capacity > 9223372036854775807
+//@   ensures result != nil && fresh(result) && fresh(result.values)
+//@   ensures result.start == start && result.end == end && result.epoch == start / 432000 && result.capacity == capacity
+//@   ensures len(result.values) == int(capacity) && uint64(len(result.values)) == capacity
+//@   ensures forall k int :: 0 <= k && k < len(result.values) ==> result.values[k] == 0
+//@   ensures start <= end && end - start < capacity ==> validIndex(result)
+
+//@ func NewForEpoch
+//@   mode int
+//@   requires epoch <= 42700796466919
+//@   ensures validIndex(result) && fresh(result) && fresh(result.values)
+//@   ensures result.start == epoch * 432000
+//@   ensures result.end == result.start + 431999
+//@   ensures result.epoch == epoch
+//@   ensures len(result.values) == 432000
+//@   ensures forall k int :: 0 <= k && k < len(result.values) ==> result.values[k] == 0
+
+// ---- Set / Get (C01 item 5: Get after Set) ----
+
+//@ func (*Index) Set
+//@   mode int
+//@   requires validIndex(i)
+//@   modifies i.values
+//@   ensures (result == nil) == (i.start <= slot && slot <= i.end)
+//@   ensures result == nil ==> i.values[int(slot - i.start)] == time
+//@   ensures forall k int :: 0 <= k && k < len(i.values) && !(result == nil && k == int(slot - i.start)) ==> i.values[k] == old(i.values[k])
+
+//@ func (*Index) Get
+//@   mode int
+//@   requires validIndex(i)
+//@   ensures (result1 == nil) == (i.start <= slot && slot <= i.end)
+//@   ensures result1 == nil ==> result0 == i.values[int(slot - i.start)]
+//@   ensures result1 != nil ==> result0 == 0
+
+//@ func (*Index) Epoch
+//@   mode int
+//@   ensures result == i.epoch
+
+// ---- codec ----
+
+//@ func blocktimeToBytes
+//@   mode bv
+//@   ensures (result1 == nil) == (0 <= blocktime && blocktime <= 4294967295)
+//@   ensures result1 == nil ==> len(result0) == 4 && fresh(result0)
+//@   ensures result1 == nil ==> forall k int :: 0 <= k && k < 4 ==> result0[k] == byte(blocktime >> (8*uint(k)))
+//@   ensures result1 != nil ==> result0 == nil
+
+// The byte layout (magic ‖ start ‖ end ‖ epoch ‖ capacity ‖ 4 bytes per value) is checked on the writer side only as a byte
+// COUNT; the content of writer.Bytes() is not modelled by vcgo (bytes.Buffer content), so the round trip
+// unmarshalBinary(marshalBinary(ix)) == ix stays open. mode bv only for solver speed.
+//@ func (*Index) marshalBinary
+//@   mode bv
+//@   ensures result1 == nil ==> forall k int :: 0 <= k && k < len(i.values) ==> 0 <= i.values[k] && i.values[k] <= 4294967295
+//@   ensures result1 != nil ==> result0 == nil
+//@   loop 0 invariant forall k int :: 0 <= k && k < rangeidx0 ==> 0 <= i.values[k] && i.values[k] <= 4294967295
+//@   loop 0 invariant written(writer) == 46 + 4*rangeidx0
+
+//@ func (*Index) MarshalBinary
+//@   mode int
+//@   ensures result1 == nil ==> forall k int :: 0 <= k && k < len(i.values) ==> 0 <= i.values[k] && i.values[k] <= 4294967295
+
+//@ func (*Index) WriteTo
+//@   mode int
+//@   requires wr != nil
+//@   modifies written(wr)
+
+// Arbitrary input bytes (C12): no requires on data. (C13/T1) success implies that the data was long enough and every
+// decoded field is the little-endian value at its offset in `data`; (C01 item 5) success implies that the decoded index
+// can be used by Get/Set. (Source fixed upstream: io.ReadFull + capacity validation.)
+//@ spec func le32d(b []byte, o int) int64 = int64(b[o]) + int64(b[o+1])*256 + int64(b[o+2])*65536 + int64(b[o+3])*16777216
+//@ func (*Index) unmarshalBinary
+//@   mode int
+//@   modifies i
+//@   ensures result == nil ==> i.start / 432000 == i.end / 432000 && i.epoch == i.start / 432000
+//@   ensures result == nil ==> len(i.values) == int(i.capacity) && i.capacity <= 9223372036854775807 && fresh(i.values)
+//@   ensures result == nil ==> forall k int :: 0 <= k && k < len(i.values) ==> 0 <= i.values[k] && i.values[k] <= 4294967295
+//@   ensures result == nil ==> len(data) >= 46 + 4*len(i.values)
+//@   ensures result == nil ==> validIndex(i)
+//@   # WANT: result == nil ==> forall t int :: 0 <= t && t < 14 ==> data[t] == magic[t]   (storage of the global `magic` is not known to be allocated at entry / its bytes are unknown)
+//@   ensures result == nil ==> forall j int :: 0 <= j && j < 8 ==> byte(i.start >> (8*uint(j))) == data[14+j]
+//@   ensures result == nil ==> forall j int :: 0 <= j && j < 8 ==> byte(i.end >> (8*uint(j))) == data[22+j]
+//@   ensures result == nil ==> forall j int :: 0 <= j && j < 8 ==> byte(i.epoch >> (8*uint(j))) == data[30+j]
+//@   ensures result == nil ==> forall j int :: 0 <= j && j < 8 ==> byte(i.capacity >> (8*uint(j))) == data[38+j]
+//@   ensures result == nil ==> forall k int :: 0 <= k && k < len(i.values) ==> i.values[k] == le32d(data, 46 + 4*k)
+//@   loop 0 invariant j <= i.capacity && len(i.values) == int(i.capacity) && i.capacity <= 9223372036854775807 && fresh(i.values)
+//@   loop 0 invariant consumed(reader) == 46 + 4*int(j) && 46 + 4*int(i.capacity) <= len(data)
+//@   loop 0 invariant forall k int :: 0 <= k && k < int(j) ==> 0 <= i.values[k] && i.values[k] <= 4294967295
+//@   loop 0 invariant forall k int :: 0 <= k && k < int(j) ==> i.values[k] == le32d(data, 46 + 4*k)
+//@   loop 0 decreases i.capacity - j
+
+// Wrappers: same facts as unmarshalBinary. decodedFrom(i, data): every field is the little-endian value at its offset.
+//@ spec func decodedFrom(i *Index, data []byte) bool = (forall j int :: 0 <= j && j < 8 ==> byte(i.start >> (8*uint(j))) == data[14+j] && byte(i.end >> (8*uint(j))) == data[22+j] && byte(i.epoch >> (8*uint(j))) == data[30+j] && byte(i.capacity >> (8*uint(j))) == data[38+j]) && (forall k int :: 0 <= k && k < len(i.values) ==> i.values[k] == le32d(data, 46 + 4*k))
+//@ spec func decodedOK(i *Index) bool = i.start / 432000 == i.end / 432000 && i.epoch == i.start / 432000 && len(i.values) == int(i.capacity) && i.capacity <= 9223372036854775807
+
+//@ func (*Index) UnmarshalBinary
+//@   mode int
+//@   modifies i
+//@   ensures result == nil ==> decodedOK(i) && fresh(i.values) && validIndex(i) && len(data) >= 46 + 4*len(i.values) && decodedFrom(i, data)
+//@   ensures result == nil ==> forall k int :: 0 <= k && k < len(i.values) ==> 0 <= i.values[k] && i.values[k] <= 4294967295
+
+//@ func (*Index) FromBytes
+//@   mode int
+//@   modifies i
+//@   ensures result == nil ==> decodedOK(i) && fresh(i.values) && validIndex(i) && len(data) >= 46 + 4*len(i.values) && decodedFrom(i, data)
+//@   ensures result == nil ==> forall k int :: 0 <= k && k < len(i.values) ==> 0 <= i.values[k] && i.values[k] <= 4294967295
+
+//@ func (*Index) FromReader
+//@   mode int
+//@   modifies i
+//@   ensures result == nil ==> decodedOK(i) && fresh(i.values) && validIndex(i)
+//@   ensures result == nil ==> forall k int :: 0 <= k && k < len(i.values) ==> 0 <= i.values[k] && i.values[k] <= 4294967295
+
+//@ func (*Index) FromFile
+//@   mode int
+//@   modifies i
+//@   ensures result == nil ==> decodedOK(i) && fresh(i.values) && validIndex(i)
+//@   ensures result == nil ==> forall k int :: 0 <= k && k < len(i.values) ==> 0 <= i.values[k] && i.values[k] <= 4294967295
+
+//@ func FromBytes
+//@   mode int
+//@   ensures (result1 == nil) == (result0 != nil)
+//@   ensures result1 == nil ==> fresh(result0) && decodedOK(result0) && validIndex(result0) && len(data) >= 46 + 4*len(result0.values) && decodedFrom(result0, data)
+//@   ensures result1 == nil ==> forall k int :: 0 <= k && k < len(result0.values) ==> 0 <= result0.values[k] && result0.values[k] <= 4294967295
+
+//@ func FromReader
+//@   mode int
+//@   ensures (result1 == nil) == (result0 != nil)
+//@   ensures result1 == nil ==> fresh(result0) && decodedOK(result0) && validIndex(result0)
+//@   ensures result1 == nil ==> forall k int :: 0 <= k && k < len(result0.values) ==> 0 <= result0.values[k] && result0.values[k] <= 4294967295
+
+//@ func FromFile
+//@   mode int
+//@   ensures (result1 == nil) == (result0 != nil)
+//@   ensures result1 == nil ==> fresh(result0) && decodedOK(result0) && validIndex(result0)
+//@   ensures result1 == nil ==> forall k int :: 0 <= k && k < len(result0.values) ==> 0 <= result0.values[k] && result0.values[k] <= 4294967295
